@@ -69,7 +69,6 @@ std::unique_ptr<NodeResult> CallNode::evaluate(PSC::Context &ctx) {
         throw PSC::InvalidArgsError(token, ctx, procedure->getTypes(), std::move(argTypes));
 
     auto procedureCtx = std::make_unique<PSC::Context>(&ctx, procedureName);
-    ctx.switchToken = &token;
 
     for (size_t i = 0; i < args.size(); i++) {
         auto &argRes = argResults[i];
@@ -130,6 +129,7 @@ std::unique_ptr<NodeResult> CallNode::evaluate(PSC::Context &ctx) {
         procedureCtx->addVariable(var);
     }
 
+    ctx.switchToken = &token;
     procedure->run(*procedureCtx);
     ctx.switchToken = nullptr;
 
